@@ -330,6 +330,20 @@ static void t_clipperD_open(Rng& g, const Ctx& c, const PathsD& subj, const Path
   for (auto& p : open64) { if (open_small3(p)) stat("open.small3_excluded_known_finding"); else open64f.push_back(p); }
   compare("d-api.ClipperD.open", openD, open64f, c.sD, c, true, input);
   stat("open.result_paths", (long long)open64.size());
+  // the overloads without an open-solution argument, on the same objects (open subjects still loaded): they must return
+  // the closed solution only, as the 64-bit overloads do
+  {
+    PathsD onlyD; Paths64 only64;
+    bool okD = cd.Execute(ct, fr, onlyD), ok64 = c64.Execute(ct, fr, only64);
+    if (okD != ok64) emitF("d-api.ClipperD.Execute", input + " | return values differ (closed-only overload)");
+    compare("d-api.ClipperD.closed-only", onlyD, only64, c.sD, c, true, input);
+    PolyTreeD tD; PolyTree64 t64;
+    okD = cd.Execute(ct, fr, tD); ok64 = c64.Execute(ct, fr, t64);
+    if (okD != ok64) emitF("d-api.ClipperD.Execute", input + " | return values differ (closed-only tree overload)");
+    std::string why;
+    stat("cmp.d-api.ClipperD.tree-closed-only");
+    if (!tree_same(t64, tD, 1 / c.sD, why, 0)) emitF("d-api.ClipperD.tree-closed-only", input + " | " + why);
+  }
 }
 
 static void t_inflate(Rng& g, const Ctx& c, const PathsD& paths, int64_t M) {
